@@ -307,8 +307,11 @@ def _shard_entry(args):
     acc = Acc(prop)
     if multiprocessing.current_process().name != "MainProcess":
         _own_process_locks()
+    t0 = time.time()
     try:
         fn(acc, shard, nshards, *extra)
+        if os.environ.get("PV_TIMING"):
+            print(f"[timing] {fn.__name__} shard={shard} {time.time() - t0:.1f}s", file=sys.stderr, flush=True)
     except HarnessError as exc:
         return ("harness", str(exc))
     except BaseException as exc:  # pylint: disable=broad-except
